@@ -2,7 +2,7 @@ use std::hash::Hash;
 use std::str::FromStr;
 
 use chrono::Duration;
-use tea_error::{TError, TResult, tbail, tensure};
+use tea_error::{TError, TResult, tbail, tensure, terr};
 
 use crate::convert::*;
 
@@ -116,15 +116,19 @@ impl TimeDelta {
     /// assert_eq!(td.inner, chrono::Duration::seconds(3 * 86400 + 4 * 3600 + 5 * 60 + 6));
     /// ```
     pub fn parse(duration: &str) -> TResult<Self> {
-        let mut nsecs = 0;
-        let mut secs = 0;
-        let mut months = 0;
+        // accumulate saturating in i128 (a saturated total is far outside the i64 range);
+        // the totals are range-checked once at the end
+        let mut nsecs: i128 = 0;
+        let mut secs: i128 = 0;
+        let mut months: i128 = 0;
         let mut iter = duration.char_indices();
         let mut start = 0;
         let mut unit = String::with_capacity(2);
         while let Some((i, mut ch)) = iter.next() {
             if !ch.is_ascii_digit() && i != 0 {
-                let n = duration[start..i].parse::<i64>().unwrap();
+                let n = duration[start..i].parse::<i64>().map_err(
+                    |_| terr!(ParseError:"expected an integer before the unit in the duration string: {}", duration),
+                )? as i128;
                 loop {
                     if ch.is_ascii_alphabetic() {
                         unit.push(ch)
@@ -144,26 +148,32 @@ impl TimeDelta {
                 tensure!(!unit.is_empty(), ParseError:"expected a unit in the duration string");
 
                 match unit.as_str() {
-                    "ns" => nsecs += n,
-                    "us" => nsecs += n * NANOS_PER_MICRO,
-                    "ms" => nsecs += n * NANOS_PER_MILLI,
-                    "s" => secs += n,
-                    "m" => secs += n * SECS_PER_MINUTE,
-                    "h" => secs += n * SECS_PER_HOUR,
-                    "d" => secs += n * SECS_PER_DAY,
-                    "w" => secs += n * SECS_PER_WEEK,
-                    "mo" => months += n as i32,
-                    "y" => months += n as i32 * 12,
+                    "ns" => nsecs = nsecs.saturating_add(n),
+                    "us" => nsecs = nsecs.saturating_add(n.saturating_mul(NANOS_PER_MICRO as i128)),
+                    "ms" => nsecs = nsecs.saturating_add(n.saturating_mul(NANOS_PER_MILLI as i128)),
+                    "s" => secs = secs.saturating_add(n),
+                    "m" => secs = secs.saturating_add(n.saturating_mul(SECS_PER_MINUTE as i128)),
+                    "h" => secs = secs.saturating_add(n.saturating_mul(SECS_PER_HOUR as i128)),
+                    "d" => secs = secs.saturating_add(n.saturating_mul(SECS_PER_DAY as i128)),
+                    "w" => secs = secs.saturating_add(n.saturating_mul(SECS_PER_WEEK as i128)),
+                    "mo" => months = months.saturating_add(n),
+                    "y" => months = months.saturating_add(n.saturating_mul(12)),
                     unit => tbail!(ParseError:"unit: '{}' not supported", unit),
                 }
                 unit.clear();
             }
         }
-        let duration = Duration::seconds(secs) + Duration::nanoseconds(nsecs);
-        Ok(TimeDelta {
-            months,
-            inner: duration,
-        })
+        let out_of_range = || terr!(ParseError:"duration out of range: {}", duration);
+        let months = i32::try_from(months).map_err(|_| out_of_range())?;
+        let secs = i64::try_from(secs)
+            .ok()
+            .and_then(Duration::try_seconds)
+            .ok_or_else(out_of_range)?;
+        let nsecs = i64::try_from(nsecs).map_err(|_| out_of_range())?;
+        let inner = secs
+            .checked_add(&Duration::nanoseconds(nsecs))
+            .ok_or_else(out_of_range)?;
+        Ok(TimeDelta { months, inner })
     }
 
     #[inline(always)]
